@@ -57,6 +57,21 @@ def _scenario_index_save_sparse(root):
     return {}
 
 
+def _scenario_index_save_hardlink(root):
+    """index save with hardlink=True (objects are linked into the store where the filesystem allows)"""
+    from dvc_data.index import build, md5, save
+
+    from . import env
+
+    state = env.mk_state(root, os.path.join(root, "tmp"))
+    odb = env.local_odb(os.path.join(root, "cache"), state=state, tmp_dir=os.path.join(root, "tmp"))
+    idx = build(os.path.join(root, "ws", "data"), env.localfs())
+    idx = md5(idx, state=state)
+    save(idx, odb=odb, hardlink=True)
+    state.close()
+    return {}
+
+
 def _closed_request(src_root):
     from . import env
     from .oracle import list_store
@@ -74,6 +89,23 @@ def _scenario_store_to_store(root):
     src = env.local_odb(os.path.join(root, "src"))
     dest = env.local_odb(os.path.join(root, "dest"), state=state, tmp_dir=os.path.join(root, "tmp"))
     res = transfer(src, dest, _closed_request(src.path), jobs=1)
+    state.close()
+    return {"failed": len(res.failed)}
+
+
+def _scenario_store_to_store_index(root):
+    """store-to-store transfer between local stores that keeps a destination index (as index push/fetch do)"""
+    from dvc_data.hashfile.db.index import ObjectDBIndex
+    from dvc_data.hashfile.transfer import transfer
+
+    from . import env
+
+    state = env.mk_state(root, os.path.join(root, "tmp"))
+    src = env.local_odb(os.path.join(root, "src"))
+    dest = env.local_odb(os.path.join(root, "dest"), state=state)
+    index = ObjectDBIndex(os.path.join(root, "tmp"), "dest")
+    res = transfer(src, dest, _closed_request(src.path), jobs=1, dest_index=index, cache_odb=src)
+    index.close()
     state.close()
     return {"failed": len(res.failed)}
 
@@ -164,6 +196,8 @@ SCENARIOS = {
     "index-save-sparse": _scenario_index_save_sparse,
     "store-to-store": _scenario_store_to_store,
     "store-to-store-expanded": _scenario_store_to_store_expanded,
+    "store-to-store-index": _scenario_store_to_store_index,
+    "index-save-hardlink": _scenario_index_save_hardlink,
     "upload-staging": _scenario_upload_staging,
     "push-remote": _scenario_push_remote,
     "push-expanded": _scenario_push_expanded,
